@@ -30,7 +30,7 @@ def feature_args(features):
     return []
 
 
-def prepare(repo, unit, features):
+def prepare(repo, unit, features, public_only=False):
     tmp = tempfile.mkdtemp(prefix='verif_kani_')
     for f in ('Cargo.toml', 'Cargo.lock'):
         shutil.copy(os.path.join(repo, f), os.path.join(tmp, f))
@@ -41,13 +41,16 @@ def prepare(repo, unit, features):
     importlib.reload(mod)
     text, metas = mod.build(repo, features)
     weave = getattr(mod, 'weave', None)
-    if weave:
+    if weave and not public_only:
         weave(tmp, features)
     open(os.path.join(tmp, 'src', 'verif_kani.rs'), 'w').write(text)
     lib = os.path.join(tmp, 'src', 'lib.rs')
     s = open(lib).read()
     # additive only: the harness module is appended; nothing of the crate is rewritten
     s += '\n#[cfg(kani)]\nmod verif_kani;\n'
+    for name, txt in getattr(mod, 'ROOT_MODULES', {}).items():
+        open(os.path.join(tmp, 'src', name + '.rs'), 'w').write(txt)
+        s += '#[cfg(kani)]\nmod %s;\n' % name
     if getattr(mod, 'CRATE_ATTRS', None):
         s = mod.CRATE_ATTRS + '\n' + s
     open(lib, 'w').write(s)
@@ -165,6 +168,7 @@ def run(step, repo, tier='quick', seed=0):
             res['tool_errors'].append('harness generation failed: %s: %s' % (type(e).__name__, e))
             return res
         pid = step['set']
+        real_pid = 'C18' if pid == 'C18q' else pid
         sel = [m for m in metas if pid in m['tags'] and (tier == 'thorough' or not m.get('thorough_only'))]
         if not sel:
             res['tool_errors'].append('no harness selected for %s in unit %s' % (pid, step['unit']))
@@ -185,6 +189,26 @@ def run(step, repo, tier='quick', seed=0):
         if os.environ.get('VERIF_DEBUG'):
             open('/tmp/verif_kani_last_%s_%s.log' % (step['unit'], pid), 'w').write(out)
         parsed = parse_output(out)
+        if not parsed and getattr(sys.modules.get(step['unit']), 'FALLBACK_PUBLIC', False):
+            # the private-field harness modules no longer compile against this tree (representation changed):
+            # fall back to the harnesses that use only the public API
+            errs = [l for l in out.split('\n') if l.startswith('error')]
+            res['tool_errors'].append('private-field harness modules do not compile against this tree (%s); only the public-API harnesses were run' % ' | '.join(errs[:3]))
+            shutil.rmtree(tmp, ignore_errors=True)
+            tmp, metas = prepare(repo, step['unit'], step.get('features'), public_only=True)
+            sel = [m for m in metas if pid in m['tags'] and m.get('public') and (tier == 'thorough' or not m.get('thorough_only'))]
+            cmd = ['cargo', 'kani'] + KANI_FLAGS + ['-j', str(step.get('jobs', 16))] + fargs
+            for m in sel:
+                cmd += ['--harness', m.get('path', 'verif_kani::' + m['name'])]
+            cmd += ['--exact']
+            try:
+                p = subprocess.run(cmd, cwd=tmp, stdout=subprocess.PIPE, stderr=subprocess.STDOUT, universal_newlines=True,
+                                   timeout=step.get('timeout', 2400), env=dict(os.environ, CARGO_NET_OFFLINE='true'))
+            except subprocess.TimeoutExpired:
+                res['tool_errors'].append('cargo kani (public fallback) timed out')
+                return res
+            out = p.stdout
+            parsed = parse_output(out)
         if not parsed:
             errs = [l for l in out.split('\n') if l.startswith('error')]
             res['tool_errors'].append('kani produced no harness results (compile error?): ' + ' | '.join(errs[:5]) + ' ... ' + out[-1500:])
@@ -238,6 +262,8 @@ def run(step, repo, tier='quick', seed=0):
             # a failed bridge obligation ([B1]/[B2]/[B3]) invalidates an assumption of the property being checked
             if any(d for d in descs if re.search(r'\[B\d\]', d[0])) and pid in m['tags']:
                 tags.add(pid)
+            if pid != real_pid and pid in tags:
+                tags.add(real_pid)
             f = {'name': '%s :: harness %s (%s) :: %s' % (step['unit'], m['name'], m.get('target', ''), '; '.join(d[0] for d in descs)[:400]),
                  'tags': sorted(tags), 'message': '; '.join(d[0] for d in descs),
                  'rendered': 'Kani harness %s: VERIFICATION %s %s\n' % (m['name'], r['result'], r['note']) + '\n'.join('Failed check: %s (%s:%d in %s)' % d for d in descs)}
